@@ -72,7 +72,8 @@ isal_sha512_ctx_mgr_submit(ISAL_SHA512_HASH_CTX_MGR *mgr, ISAL_SHA512_HASH_CTX *
         *ctx_out = _sha512_ctx_mgr_submit(mgr, ctx_in, buffer, len, flags);
 
 #ifdef SAFE_PARAM
-        if (*ctx_out != NULL &&
+        /* Only the submitted context can carry the outcome of this call */
+        if (*ctx_out == ctx_in &&
             (ISAL_SHA512_HASH_CTX *) (*ctx_out)->error != ISAL_HASH_CTX_ERROR_NONE) {
                 ISAL_SHA512_HASH_CTX *cp = (ISAL_SHA512_HASH_CTX *) (*ctx_out);
 
